@@ -197,6 +197,8 @@ def _raised_in_implementation(exc):
     if not tb:
         return False
     fn = tb[-1].filename.replace("\\", "/")
+    if os.path.basename(fn) in PYX or fn.startswith("cutadapt/"):
+        return True  # frames of the Cython modules carry relative file names
     return "/verif/" not in fn and ("/src/cutadapt/" in fn or fn.startswith("src/cutadapt/") or fn.startswith(os.path.join(REPO, "src")))
 
 
